@@ -281,9 +281,25 @@ def check_clone_faithful_table(F, R, prefix, inst):
     def norm(t):
         if isinstance(t, tuple) and t:
             if t[0] in ("conv", "refto", "ref", "deref") and len(t) == 2:
+                if t[0] == "ref":
+                    from .termtypes import place_term
+                    pt = place_term(t[1])
+                    return norm(pt if pt is not None else t[1])
                 return norm(t[1])
+            if t[0] == "call" and len(t[2]) == 1 and re.search(r"(Clone>?::clone|ToOwned>?::to_owned)$", t[1]):
+                return norm(t[2][0])      # `Arc::clone(&x)` written as a path call
             return tuple(norm(x) for x in t)
         return t
+    def same_as(t, src, p, depth=0):
+        """Is term `t` (already normalised) a clone of the value at `src`?  Either the very datum, or — `opt.as_ref().map(Clone::clone)`
+        written out — the same variant rebuilt from the clones of its payload on a row that learned this variant of `src`."""
+        if t == src:
+            return True
+        if depth < 3 and isinstance(t, tuple) and t and t[0] == "variant":
+            learned = [o for a, o in p.conds if a[0] == "discr" and norm(a[1]) == src]
+            if learned and all(o == t[2] for o in learned):
+                return all(same_as(x, ("field", ("as", src, t[2]), i), p, depth + 1) for i, x in enumerate(t[3]))
+        return False
     sel = (lambda a: re.search(prefix, a) is not None) if prefix.startswith("^") else (lambda a: a.startswith(prefix))
     bs = [b for b in F.crate_bodies() if (b.impl or {}).get("trait") == "std::clone::Clone" and b.name.endswith("::clone")
           and sel((b.impl or {}).get("self_adt", ""))]
@@ -320,7 +336,7 @@ def check_clone_faithful_table(F, R, prefix, inst):
             for j, f in enumerate(ret[3]):
                 if j < len(ftys) and ftys[j].startswith("std::marker::PhantomData"):
                     continue
-                if f != ("field", src, j):
+                if not same_as(f, ("field", src, j), p):
                     bad = f"field {j} of the cloned `{v}` is not the clone of field {j} of self"
                     break
             if bad:
